@@ -16,7 +16,8 @@ VARIABLES queues,      \* channel -> sequence of messages
 tvars == <<queues, published, delivered>>
 
 \* fnmatch patterns used by the harness: exact name, "*", and the prefix pattern "c.*"
-Matches(ch, pat) == pat = "*" \/ pat = ch \/ (pat = "c.*" /\ ch \in {"c.x", "c.y"})
+\* ... and "c.*.x", whose prefix "c." and suffix ".x" overlap on the channel "c.x" (which it does NOT match)
+Matches(ch, pat) == pat = "*" \/ pat = ch \/ (pat = "c.*" /\ ch \in {"c.x", "c.y", "c.q.x"}) \/ (pat = "c.*.x" /\ ch = "c.q.x")
 
 Init == queues = [c \in Channels |-> <<>>] /\ published = {} /\ delivered = <<>>
 
